@@ -415,6 +415,8 @@ def run_surface_corpus(tag):
                     tie.append((f"calculus (from the extracted signature) and property disagree on `{p.what}`", {"calculus": want, "property": stated, "request": p.model_line}))
                 want = stated
         nonbc = [c for c in codes if c not in BORROWCK]
+        # "… is not Clone": the rejection IS the missing method / unsatisfied bound
+        if p.what.endswith("is not Clone") and set(nonbc) <= {"E0599", "E0277"}: nonbc = []
         if nonbc and want == "reject":
             # rejected, but not by the borrow checker: the probe itself is ill-typed (template out of date?)
             tie.append((f"probe `{p.what}` does not type-check ({','.join(sorted(set(nonbc)))}); no verdict", {"program": p.program()[-600:]}))
